@@ -1,6 +1,6 @@
 """C15 — the generated OpenAPI document is valid and describes exactly the application.
 
-impl  : harness C15 — applications assembled at run time from a catalogue of 12 typed handlers (fn items: 0-2 path params, Query / JSON / URLEncoded / Multipart
+impl  : harness C15 — applications assembled at run time from a catalogue of 13 typed handlers (fn items: 0-2 path params, Query / JSON / URLEncoded / Multipart
         extractors over derived schemas, typed status / JSON / text / Result / Response returns) under plain / JWT / BasicAuth / openapi::Tag fangs at any level,
         nested mounts with param prefixes; the real `__openapi_document_bytes__`; and, for every documented operation, a request built from it (params, query, body of
         the documented media type, documented credentials) through the real router: which handler ran
@@ -15,7 +15,7 @@ from . import appgen
 
 ID = 'C15'
 GEN_DEPS = []
-RULE = ('application trees: 1-6 routes per application (static / param segments, root route), 1-5 methods per route each with any of the 12 catalogue handlers that fits the '
+RULE = ('application trees: 1-6 routes per application (static / param segments, root route), 1-5 methods per route each with any of the 13 catalogue handlers that fits the '
         'number of captured params, 0-3 fangs per application and 0-2 per route drawn from plain / jwt / basic / tag, mounts up to depth 2 with static and param prefixes; '
         'non-trivial = a mount with a param prefix, or an authentication fang, or a handler with extractors')
 ASSUMPTIONS = ['param names are distinct along one path and non-empty; route literals hold no "{" "}" (hypothesis `clean` of template_inj)',
@@ -31,7 +31,8 @@ SIGS = {0: dict(path=[], query=[], body=None, responses=[200]),
         8: dict(path=['string'], query=[['tag', 'string', True]], body='application/json', responses=[201, 404, 500]),
         9: dict(path=[], query=[], body=None, responses=[]),
         10: dict(path=[], query=[], body='application/json', responses=[]),
-        11: dict(path=['integer'], query=[], body=None, responses=[200, 404])}
+        11: dict(path=['integer'], query=[], body=None, responses=[200, 404]),
+        12: dict(path=[], query=[['age', 'integer', True], ['limit', 'integer', False], ['name', 'string', True], ['nick', 'string', False], ['zone', 'string', True]], body=None, responses=[200])}
 SIGS_J = {str(k): v for k, v in SIGS.items()}
 KINDS = ['plain', 'jwt', 'basic', 'tag']
 PNAMES = ['id', 'p', 'name', 'v', 'k', 'x2', 'user_id', 'n']
@@ -96,7 +97,7 @@ def corpus():
             C({'fangs': [], 'items': [{'mount': '/:tenant', 'app': {'fangs': [P, J, T], 'items': [R('/', {'GET': 1}), R('/:id', {'GET': 2, 'POST': 5}),
                                                                                                  {'mount': '/deep/:v', 'app': {'fangs': [T], 'items': [R('/', {'GET': 2, 'DELETE': 0}, [B])]}}]}}]}),
             C({'fangs': [J, B], 'items': [R('/both', {'GET': 0})]}),
-            C({'fangs': [], 'items': [R('/a', {'GET': 0}), R('/a/:id', {'GET': 1}), R('/a/:id/b', {'POST': 4}), R('/ab', {'GET': 3}), R('/a/b', {'GET': 9})]})]
+            C({'fangs': [], 'items': [R('/a', {'GET': 0}), R('/a/:id', {'GET': 1}), R('/a/:id/b', {'POST': 4}), R('/ab', {'GET': 3}), R('/a/b', {'GET': 9}), R('/q', {'GET': 12})]})]
 
 
 def generate(rng, tier):
